@@ -5,6 +5,7 @@ import NxProofs.MiscAuth
 import NxProofs.MiscAuthClients
 import NxProofs.MiscCtr
 import NxProofs.MiscWire
+import NxProofs.MiscCrcProd
 /-!
 # C19 — request authentication codes and auxiliary codecs
 
@@ -245,9 +246,22 @@ NOT theorems (stated here so the gap is visible): "`dauthMac`, `aauthEnvelope`, 
 reference implementations (AES/CMAC/SHA-256/OAEP written from FIPS-197, RFC 4493, FIPS 180-4, RFC 8017,
 validated on the published vectors and on the three request snapshots of tests/switch/test_dauth.py in the
 driver self-test); their agreement with the Python library is established differentially by
-harness/corr_C19.py on generated inputs (sampled, not exhaustive). `prodCrc16 = refCrc16Arc 0x55AA` (table
-form = bit-serial CRC-16/ARC) is likewise checked differentially, not proved.
+harness/corr_C19.py on generated inputs (sampled, not exhaustive). (`prodCrc16` is no longer in this list: see
+`prod_crc_is_crc16_arc` below.)
 -/
+
+/-- **the calibration-data checksum is CRC-16/ARC, for every input.** The model of `nintendo.switch.crc16` (two 4-bit table
+    steps per byte, the table entries of the register's low nibble and of the data nibble xored separately — tied to the
+    code by the correspondence and by the ast-extracted table obligation) equals the bit-serial textbook definition
+    (reflected polynomial 0xA001, start value 0x55AA) on every byte string: the bit step is GF(2)-linear and the table holds
+    the four-step images of the sixteen nibbles. -/
+theorem prod_crc_is_crc16_arc (d : Bytes) : prodCrc16 d = refCrc16Arc 0x55AA d := prodCrc16_eq_ref d
+
+/-- one byte of the routine = eight bit steps on `register xor byte`, for every register value (not only 16-bit ones) -/
+theorem prod_crc_byte_step (h : Nat) (b : UInt8) : prodStep h b = refByte h b := prodStep_eq_refByte h b
+
+example : prodCrc16 [0x31, 0x32, 0x33, 0x34, 0x35, 0x36, 0x37, 0x38, 0x39] = refCrc16Arc 0x55AA [0x31, 0x32, 0x33, 0x34, 0x35, 0x36, 0x37, 0x38, 0x39] ∧
+    refCrc16Arc 0 [0x31, 0x32, 0x33, 0x34, 0x35, 0x36, 0x37, 0x38, 0x39] = 0xBB3D := by decide +kernel   -- the CRC-16/ARC check value
 
 /-! non-vacuity -/
 example : a2b (b2a [0xFB, 0xFF]) = .ok [0xFB, 0xFF] := by decide +kernel
